@@ -672,7 +672,7 @@ impl Property for C14 {
     type Plan = ReaderPlan;
     const ID: &'static str = "C14";
     const LEVEL: &'static str = "exploration";
-    const RULE: &'static str = "seeded operation histories (up to 64 operations: peek/read/signed/skip at widths 0..=66 into 7 integer types, read_u8, read_vlc over generated prefix-free tables, recognize_start_code, commit, nested with_transaction / with_transaction_union / with_lookahead ending Ok/Err/None with and without `?` propagation) over sources of 0..48 bytes (planted start codes at all bit phases, zero and 0xFF runs) delivered in pieces during the run, with EINTR and hard I/O errors armed on source reads; plus a systematic sweep of every start phase x every operation x every width. evaluations = reader operations executed and compared with the bit-vector model. A history is non-trivial if it contains at least one rollback (failed transaction, None union, look-ahead) followed by a successful read of >= 1 bit; distinct by operation sequence.";
+    const RULE: &'static str = "seeded operation histories (up to 64 operations: peek/read/signed/skip at widths 0..=66 into 7 integer types, read_u8, read_vlc over generated prefix-free tables, recognize_start_code, commit, nested with_transaction / with_transaction_union / with_lookahead ending Ok/Err/None with and without `?` propagation) over sources of 0..48 bytes (planted start codes at all bit phases, zero and 0xFF runs) delivered in pieces during the run, with EINTR and hard I/O errors armed on source reads; plus (a) a systematic sweep of every start phase x every operation x every width 0..=66 x seven types and (b) a small-scope ENUMERATION of every sequence of 2 (quick) / 3 (thorough) operations from a 14-operation alphabet at all 8 start phases over 3 short sources, each on a fresh reader. evaluations = reader operations executed and compared with the bit-vector model. A history is non-trivial if it contains at least one rollback (failed transaction, None union, look-ahead) followed by a successful read of >= 1 bit; distinct by operation sequence.";
     fn runs(tier: Tier) -> u64 {
         match tier {
             Tier::Quick => 300_000,
@@ -788,8 +788,47 @@ impl Property for C14 {
             "start_code_end_of_data",
         ]
     }
-    fn sweeps(_tier: Tier) -> Vec<ReaderPlan> {
+    fn sweeps(tier: Tier) -> Vec<ReaderPlan> {
         let mut v = Vec::new();
+        // Small-scope enumeration: EVERY sequence of `len` operations from a small
+        // alphabet, at every start phase, over three short sources, each on a fresh
+        // reader (the phase x buffer-state space the random histories sample).
+        let alphabet: Vec<Op> = vec![
+            Op::Read { ty: Ty::U8, n: 1 },
+            Op::Read { ty: Ty::U16, n: 9 },
+            Op::Read { ty: Ty::U32, n: 17 },
+            Op::ReadS { ty: Ty::I16, n: 5 },
+            Op::Peek { ty: Ty::U32, n: 24 },
+            Op::Skip { n: 7 },
+            Op::Skip { n: 8 },
+            Op::Commit,
+            Op::Txn { body: vec![Op::Read { ty: Ty::U16, n: 11 }], end: End::Err, propagate: true },
+            Op::Txn { body: vec![Op::Read { ty: Ty::U8, n: 3 }, Op::Commit], end: End::Ok, propagate: false },
+            Op::Union { body: vec![Op::Skip { n: 13 }], end: End::None, propagate: true },
+            Op::Look { body: vec![Op::Read { ty: Ty::U32, n: 20 }] },
+            Op::StartCode { in_error: false },
+            Op::Deliver { bytes: vec![0x00, 0x01] },
+        ];
+        let len = if tier == Tier::Quick { 2 } else { 3 };
+        let sources: [&[u8]; 3] = [&[0xA5, 0x00, 0x00, 0x80], &[0x00, 0x00, 0x40, 0xFF, 0x00], &[0xFF]];
+        let total = alphabet.len().pow(len as u32);
+        for (si, src) in sources.iter().enumerate() {
+            for phase in 0..8u32 {
+                // pack many sequences into one plan would share reader state; one plan per sequence
+                for code in 0..total {
+                    let mut ops = vec![Op::Deliver { bytes: src.to_vec() }, Op::Skip { n: phase }];
+                    let mut c = code;
+                    for _ in 0..len {
+                        ops.push(alphabet[c % alphabet.len()].clone());
+                        c /= alphabet.len();
+                    }
+                    // a final verifying read shows where the reader ended up
+                    ops.push(Op::Peek { ty: Ty::U16, n: 16 });
+                    ops.push(Op::Read { ty: Ty::U8, n: 2 });
+                    v.push(ReaderPlan { note: format!("enumeration: source {si}, phase {phase}, sequence #{code}"), tables: vec![], ops });
+                }
+            }
+        }
         let mut rng = Rng::new(0xC14);
         for phase in 0..8u32 {
             v.push(sweep_plan(phase, rng.bytes(24), "random source"));
